@@ -1,5 +1,5 @@
 ENGINES = [
-    {'name': 'E1-enum', 'path': 'mc/engine_enum.py', 'serves_properties': ['C01', 'C02', 'C04', 'C05', 'C06', 'C07', 'C09', 'C12', 'C13', 'C14', 'C19'],
+    {'name': 'E1-enum', 'path': 'mc/engine_enum.py', 'serves_properties': ['C01', 'C02', 'C04', 'C05', 'C06', 'C07', 'C08', 'C09', 'C12', 'C13', 'C14', 'C19'],
      'kind_free_text': 'sharded exhaustive enumeration of a finite input/configuration space of the real code against a reference model'},
     {'name': 'E2-bfs', 'path': 'mc/engine_bfs.py', 'serves_properties': ['C03', 'C04', 'C05', 'C15', 'C16'],
      'kind_free_text': 'explicit-state breadth-first search over live implementation objects (state = replayable operation history, canonicalised from the complete vars() of the objects), level-parallel'},
@@ -86,3 +86,9 @@ CHECKS['C07'] = dict(
     technique='exhaustive enumeration of small files through save+load, of unstorable contents, and of every single-byte mutation/truncation/deletion/duplication of reference-encoded base files (fixed-point clause)',
     text='Every single track of length <= 3 (4 thorough) over 20 event kinds with deltas at every variable-length-quantity boundary, every pair/triple of short tracks, boundary payload lengths, three ticks_per_beat values and all file types are saved and loaded back and compared with the reference normalisation (single trailing end_of_track carrying the remaining delta). Unstorable contents must make save raise ValueError. 4 base files produced by the reference encoder are mutated exhaustively at byte level; every mutant that loads must be a fixed point of load-save-load.',
     note='Event kinds and track lengths bounded; a mutant that fails to load is outside the clause; negative end_of_track deltas that fold into a storable delta are accepted when the file loads to the normalised content.')
+
+CHECKS['C08'] = dict(
+    engine='E1-enum', category='exploration', design_ref='DESIGN.md 5/C08',
+    technique='exhaustive enumeration of event lists with an independent SMF reference codec: saved bytes decoded by a strict reference decoder; every legal alternative encoding (running-status subsets, deviation-bounded VLQ padding and header length) loaded by the implementation',
+    text='Write direction: every track of length <= 3 (4 thorough) over 20 event kinds is saved and the bytes decoded by a strict decoder written from the SMF 1.0 specification (exact chunk lengths, minimal VLQs, running status only after a channel message of equal status, sysex framing, FF 2F 00 last) and compared with the in-memory events. Read direction: for every track of length <= 3 all running-status subsets and every set of <= 2 deviations among redundant VLQ bytes and longer header chunks are encoded by the reference encoder and must load to the same messages, plain, with clip=True and with debug=True; every channel data byte replaced by 0x80/0xF7/0xFF must raise without clip and become 127 with clip. A symmetric reader+writer fault that C07 cannot see is visible here.',
+    note='Trusted: mc/ref/smf.py. System common messages stored raw are accepted as a mido extension; alien chunks and SMPTE division outside the statement.')
